@@ -31,6 +31,10 @@ def literal_cases(run):
         for v in (0, 1, h - 1, h, h + 1, h + 2, 2 * h, 2 * h + 1, 2 * h + 2, 2 * h + 3, 2 ** 64 - 1, 2 ** 64, 2 ** 64 + 1, 10 ** 25):
             cases.append((t, str(v), "suffixed"))
             cases.append((t, str(v), "pattern"))
+            cases.append((t, str(v), "plainpattern"))  # an unsuffixed pattern takes the scrutinee's type
+        for v in (h // 2, h // 2 + 1, 2 ** 31 - 1, 2 ** 31, 2 ** 32 - 1, 2 ** 32, 2 ** 63 - 1, 2 ** 63, 2 ** 63 + 1):
+            cases.append((t, str(v), "plainpattern"))
+            cases.append((t, str(v), "pattern"))
         cases.append((t, "000" + str(h), "suffixed"))
         cases.append((t, "0" * 30 + "7", "suffixed"))
         n = 40 if run.tier == "quick" else 400
@@ -42,7 +46,7 @@ def literal_cases(run):
                 v = h + rng.randint(-3, 3)
             else:
                 v = rng.randint(0, 10 ** rng.randint(1, 24))
-            cases.append((t, str(max(v, 0)), rng.choice(["suffixed", "pattern"])))
+            cases.append((t, str(max(v, 0)), rng.choice(["suffixed", "pattern", "plainpattern"])))
     for v in (0, 5, 2147483647, 2147483648, 4294967295, 4294967296, 9999999999):
         cases.append(("int32", str(v), "plain"))
     return cases
